@@ -131,6 +131,7 @@ def generic_run(ctx, lines, view, clauses, rule, known_pred=None, tag="mc"):
         res["disagreements"].append({"what": "harness/driver error: " + e})
     seen = set()
     dist = {}
+    quota = {}
     for line, io, mo, fa in recs:
         c = parse_case(line)
         i, m, f = parse_out(io), parse_out(mo), parse_facts(fa)
@@ -142,7 +143,10 @@ def generic_run(ctx, lines, view, clauses, rule, known_pred=None, tag="mc"):
             if len(res["disagreements"]) < 40:
                 res["disagreements"].append({"what": "model/implementation disagree on %s: implementation `%s`, model `%s`" % (show_case(c), io[:80], mo[:80]), "case": line})
         for cls, what in clauses(c, i, m, f):
-            if len(res["failures"]) < 400:
+            # quota per (class, known-finding shape) so that the many instances of a known finding cannot crowd out a new failure
+            qk = (cls, known_repr(c), bool(f.get("k2")) if isinstance(f, dict) else False)
+            quota[qk] = quota.get(qk, 0) + 1
+            if quota[qk] <= 150:
                 res["failures"].append({"class": cls, "what": what + " -- " + show_case(c) + " -- implementation returned `%s`" % io[:100], "case": line, "impl": io[:400]})
     res["distinct_nontrivial"] = len(seen)
     res["samples"] = [{"case": show_case(parse_case(r[0])), "implementation": r[1][:80], "model": r[2][:80], "spec_facts": r[3][:120]} for r in recs[:: max(1, len(recs) // 6)][:6]]
